@@ -20,6 +20,7 @@ import Sqfs.Proofs.EncXattrE2E
 import Sqfs.Proofs.EncTree
 import Sqfs.Proofs.EncTreeAll4
 import Sqfs.Proofs.PackContent2
+import Sqfs.Proofs.FsTreeOrder
 namespace Sqfs.C01
 open Sqfs.Enc Sqfs.Consts
 open Sqfs.MetaWriter (Codec)
@@ -724,5 +725,50 @@ theorem exampleTree_reads_back :
     obtain ⟨v, hv⟩ := Option.isSome_iff_exists.mp hnorm
     obtain ⟨rn, h1, h2⟩ := parse_serialize 4096 exampleTree exampleExtra out (of_decide_eq_true hrep) hs 6 v hv
     exact ⟨out, v, rn, rfl, hv, h1, h2⟩
+
+
+/-! ## what `fstree_post_process` hands the serialiser -/
+
+open Sqfs.FsTree in
+/-- **`fstree_post_process` establishes the first two clauses of `orderOkB` and the inode count bound** — for every
+tree whose directories keep their children under pairwise different names in `strcmp` order (`AllSorted`: what
+`insert_sorted` maintains; C11 `scan_tree_sorted`/`glob_tree_sorted` prove it of everything `--pack-dir` and glob lines
+build) and every list of unresolved hard links: when it succeeds, `fs->inodes` is a permutation of the DFS numbering
+order of the resolved tree (`reorder_hard_links` only moves slots), holds no node twice, contains the root, and has at
+most 2³² − 1 entries.
+
+*Partial*: the third clause of `orderOkB` — every child and every hard-link target stands before the directory naming
+it — is proved for C03's numbering model (`children_before_parent`, `link_targets_before_linking_dirs`) and evaluated
+per generated tree by the unit correspondence, not proved about this model of `reorder_hard_links`; the full statement
+would be `postProcess tree links = some r → orderOkB r = true`. -/
+theorem post_process_order_partial (tree : TNode) (links : List Path) (r : Result) (ht : tree.AllSorted)
+    (h : postProcess tree links = some r) :
+    r.tree.AllSorted ∧ r.inodes.Perm (allocOrder r.tree) ∧ r.inodes.Nodup ∧ r.inodes.contains [] = true ∧
+      r.inodes.length ≤ 0xFFFFFFFF := by
+  unfold postProcess at h
+  split at h
+  · cases h
+  · rename_i t hres
+    have hts : t.AllSorted := resolveHardLinks_allSorted _ _ _ _ ht hres
+    simp only at h
+    split at h
+    · cases h
+    · rename_i hlen
+      cases h
+      have hp := reorderHardLinks_perm t (allocOrder t)
+      refine ⟨hts, hp, hp.nodup_iff.2 (allocOrder_nodup t hts), ?_, ?_⟩
+      · rw [List.contains_iff_mem]
+        exact hp.mem_iff.2 (by simp [allocOrder])
+      · rw [hp.length_eq]; omega
+
+/-- non-vacuous: `/a`, `/d/s`, `/h` → `/a` (unresolved) post-processes, and the example tree is sorted -/
+example : ∃ r, Sqfs.FsTree.postProcess exampleTree.tree [] = some r ∧ r.inodes.length = 4 := by decide
+theorem exampleTree_allSorted : exampleTree.tree.AllSorted := by
+  simp only [exampleTree, Sqfs.FsTree.TNode.AllSorted, Sqfs.FsTree.AllSortedList, List.map_cons, List.map_nil, and_true,
+    Sqfs.FsTree.TNode.name]
+  decide
+example : ∀ r, Sqfs.FsTree.postProcess exampleTree.tree [] = some r → r.inodes.Nodup ∧ r.inodes.contains [] = true :=
+  fun r h => ⟨(post_process_order_partial _ _ r exampleTree_allSorted h).2.2.1,
+    (post_process_order_partial _ _ r exampleTree_allSorted h).2.2.2.1⟩
 
 end Sqfs.C01
